@@ -168,6 +168,13 @@ func c03alphabet(cf c03conf, thorough bool) []c03frame {
 				add(s, true, "ihl6")
 				s.IHL, s.TCPOpts, s.Payload, s.TTL = 5, true, []byte("hello"), 255
 				add(s, true, "opts+payload")
+				// the longest headers the formats allow (60-byte IPv4 header, 60-byte TCP header), alone
+				// and in a full-size frame: whatever the socket keeps of a frame must include them
+				s = base
+				s.Kind, s.SrcIP, s.SrcPort, s.TCPFlags, s.IHL, s.TCPDoff = "tcp", src, sp, f, 15, 15
+				add(s, true, "ihl15+doff15")
+				s.Payload = make([]byte, 1380)
+				add(s, true, "ihl15+doff15+1380B")
 				// fragments: outside the iff
 				s = base
 				s.Kind, s.SrcIP, s.SrcPort, s.TCPFlags, s.MF = "tcp", src, sp, f, true
@@ -200,6 +207,11 @@ func c03alphabet(cf c03conf, thorough bool) []c03frame {
 					if ty == 3 && co == 3 && ttl == 64 {
 						s.IHL = 6
 						add(s, true, "ihl6")
+						s.IHL = 15
+						add(s, true, "ihl15")
+						s.Payload = make([]byte, 1432)
+						add(s, true, "ihl15+1432B")
+						s.Payload = []byte{0x45, 0, 0, 28}
 						s.IHL, s.MF = 5, true
 						add(s, false, "first-fragment")
 					}
